@@ -801,6 +801,8 @@ def _gen_graph(rng, depth, opts, in_macro_args=None):
             k = "l2o"
         elif r < 0.95:
             k = "ui"
+        elif opts.get("allow_loc"):
+            k = "loc"
         else:
             k = "F"
         kinds.append(k)
@@ -950,8 +952,9 @@ def _f_indices(spec):
 
 
 def _mk_case(rng, tier, mode):
+    backend = rng.choice(["pickle", "pickle", "cloudpickle", "file", "file"])
     opts = {"multi": mode != "atmost1", "signals": True, "next_f": rng.randrange(28), "snap": None,
-            "allow_unused": mode == "unused", "p_exec": 0.04}
+            "allow_unused": mode == "unused", "p_exec": 0.04, "allow_loc": backend != "pickle"}
     state = rng.choice(["fresh", "run", "run", "run", "fail", "fail", "partial", "midrun", "midrun"])
     depth = rng.choice([0, 1, 1, 2, 2, 3] if tier == "thorough" else [0, 1, 1, 2])
     r = rng.random()
@@ -991,7 +994,7 @@ def _mk_case(rng, tier, mode):
     if opts["snap"] is not None and state == "midrun":
         state = "run"  # no place for the snap node was found
     case = {"root": root, "state": state, "mode": mode,
-            "backend": rng.choice(["pickle", "pickle", "cloudpickle", "file", "file"]),
+            "backend": backend,
             "rounds": rng.choice([1, 1, 2]), "target": [], "fail": [], "has_executor": bool(opts.get("has_executor"))}
     paths = list(_paths(root["spec"])) if "spec" in root else []
     if paths and rng.random() < 0.2:
@@ -1154,6 +1157,12 @@ def corpus():
     # the cyclic flow
     yield {"root": {"kind": "wf", "label": "w", "spec": _cyclic_spec(None, 3)}, "state": "run", "backend": "pickle",
            "rounds": 2, "target": [], "fail": [], "rerun": ["run"], "mode": "corpus"}
+    # a node class that cannot be imported: cloudpickle, and the .cpckl fallback of the file back end
+    loc = {"kind": "wf", "label": "w", "spec": {"children": [_leafF("a", 1, a=1), {"label": "l", "kind": "loc", "const": {}}],
+                                                 "data": [["l", "a", ["child", "a", "o"]]]}}
+    for be in ("cloudpickle", "file"):
+        yield {"root": loc, "state": "run", "backend": be, "rounds": 2, "target": [], "fail": [], "rerun": ["run"],
+               "rerun_eq_cache": True, "mode": "corpus"}
 
 
 def shrink_candidates(case):
